@@ -96,7 +96,7 @@ def build_gram(setname):
         msg = open(failed[0]).read()[-3000:]
         shutil.rmtree(tmp, ignore_errors=True)
         return ('COMPILE-FAIL', msg)
-    r = sh(['g++', '-o', os.path.join(tmp, 'gram')] + sorted(glob.glob(os.path.join(tmp, '*.o'))))
+    r = sh(['g++', '-pthread', '-o', os.path.join(tmp, 'gram')] + sorted(glob.glob(os.path.join(tmp, '*.o'))))
     if r.returncode != 0: harness_error('link failed: ' + r.stderr[-2000:])
     for f in glob.glob(os.path.join(tmp, '*.o')) + glob.glob(os.path.join(tmp, 'frames_*.cpp')): os.remove(f)
     if os.path.exists(d): shutil.rmtree(tmp, ignore_errors=True)
@@ -141,7 +141,7 @@ def run_shards(exe, args, outdir, nshards=None, timeout=None):
         except subprocess.TimeoutExpired:
             p.kill(); so, se = p.communicate()
             results.append({'shard': k, 'timeout': True}); continue
-        if p.returncode == 3 and os.path.exists(out + '.crash'):
+        if p.returncode in (3, 4) and os.path.exists(out + '.crash'):
             results.append({'shard': k, 'crash': json.load(open(out + '.crash'))}); continue
         if p.returncode != 0 or not os.path.exists(out):
             harness_error('engine shard %d exited %s: %s' % (k, p.returncode, se[-1500:]))
